@@ -234,15 +234,15 @@ static void type_case(uint32_t take, int numtake, const int *eff, const char **a
     c->addoptions(c, o); ncb = 0;
     int r = c->parse(c, mpath, 0);
     int acc = (numtake == 0xFF || numtake == nargs);
-    for (int j = 0; j < nargs && j < 5 && acc; j++) acc = type_ok(eff[j], args[j]);
+    for (int j = 0; j < nargs && acc; j++) acc = type_ok(eff[j], args[j]);    /* the AA default applies to every argument, also beyond the five that can be typed individually */
     if (acc) {
         if (r != 1 || ncb != 1) vc_viol("apache:type-reject", "%s: directive [%s] rejected (%d): %s", key, d + 0, r, c->errmsg(c) ? c->errmsg(c) : "");
         else {
             if (got_argc != nargs + 1) vc_viol("apache:argc", "%s: argc %d", key, got_argc);
             else for (int j = 0; j < nargs; j++) {
                 const char *want = args[j];
-                if (j < 5 && eff[j] == T_BOOL) want = boolval(args[j]) ? "1" : "0";
-                if (strcmp(got_argv[j + 1], want)) { vc_viol(j < 5 && eff[j] == T_BOOL ? "apache:bool-normalise" : "apache:argv", "%s: arg %d is '%s' expected '%s'", key, j + 1, got_argv[j + 1], want); break; }
+                if (eff[j] == T_BOOL) want = boolval(args[j]) ? "1" : "0";
+                if (strcmp(got_argv[j + 1], want)) { vc_viol(eff[j] == T_BOOL ? "apache:bool-normalise" : "apache:argv", "%s: arg %d is '%s' expected '%s'", key, j + 1, got_argv[j + 1], want); break; }
             }
         }
         n_nontrivial++;
@@ -304,7 +304,7 @@ static void run_actype(int part) {
     } else {
         /* TAKEALL with AA default and A1/A2 overrides, argc 0..6 (only the first five are type-checked) */
         const char *R[] = {"1", "1.5", "abc", "off"}; int NR = 4;
-        for (int aa = 0; aa < 4; aa++) for (int t1 = 0; t1 < 4; t1++) for (int t2 = 0; t2 < 4; t2++) for (int n = 0; n <= 6; n++) {
+        for (int aa = 0; aa < 4; aa++) for (int t1 = 0; t1 < 4; t1++) for (int t2 = 0; t2 < 4; t2++) for (int n = 0; n <= 7; n++) {
             int nvc = 1; for (int i = 0; i < n; i++) nvc *= NR;
             uint32_t take = QAC_TAKEALL | tbit(aa, 5) | tbit(t1, 0) | tbit(t2, 1);
             for (int j = 0; j < 8; j++) eff[j] = aa;
@@ -409,7 +409,8 @@ static QAC_CB(cbs) {
 }
 /* item kinds: 0 x(ALL) 1 r(ROOT) 2 d(D only) 3 h(D|H) 4 <D>(ROOT) 5 <H>(in D) 6 u (unregistered) 7 X (wrong case of x) */
 static const char *NAME[] = {"x", "r", "d", "h", "Dir", "Host", "u", "X", "DIR"};
-static unsigned long long ALLOW[] = {0, 1, 2, 2 | 4, 1, 2, 0, 0, 1}; static unsigned long long SID[] = {0, 0, 0, 0, 2, 4, 0, 0, 2};
+#define HOSTID (1ULL << 40)     /* section ids are 64-bit masks: one of them uses a bit above 31 */
+static unsigned long long ALLOW[] = {0, 1, 2, 2 | HOSTID, 1, 2, 0, 0, 1}; static unsigned long long SID[] = {0, 0, 0, 0, 2, HOSTID, 0, 0, 2};
 static int choice[64], nchoice, pos, radix[64];
 static int pick(int n) { int p = pos; if (pos >= nchoice) choice[nchoice++] = 0; pos++; radix[p] = n; return choice[p]; }
 static int failed, count, count_alt, lineno, sflags, s_maxitems, uses_special;
@@ -478,8 +479,8 @@ static void run_acstruct(int flags, int maxitems, int maxdepth, long shard, long
             n_eval++; n_nontrivial += strchr(doc, '<') != NULL;
             wr(doc);
             qaconf_t *c = qaconf();
-            qaconf_option_t o[] = {{"x", QAC_TAKE1, cbs, 0, QAC_SECTION_ALL}, {"r", QAC_TAKE1, cbs, 0, QAC_SECTION_ROOT}, {"d", QAC_TAKE1, cbs, 0, 2}, {"h", QAC_TAKE1, cbs, 0, 2 | 4},
-                                   {"Dir", QAC_TAKE1, cbs, 2, QAC_SECTION_ROOT}, {"Host", QAC_TAKE1, cbs, 4, 2}, QAC_OPTION_END};
+            qaconf_option_t o[] = {{"x", QAC_TAKE1, cbs, 0, QAC_SECTION_ALL}, {"r", QAC_TAKE1, cbs, 0, QAC_SECTION_ROOT}, {"d", QAC_TAKE1, cbs, 0, 2}, {"h", QAC_TAKE1, cbs, 0, 2 | HOSTID},
+                                   {"Dir", QAC_TAKE1, cbs, 2, QAC_SECTION_ROOT}, {"Host", QAC_TAKE1, cbs, HOSTID, 2}, QAC_OPTION_END};
             c->addoptions(c, o);
             int r = c->parse(c, mpath, flags);
             /* with CASEINSENSITIVE the callback sees the name as written in the file */
